@@ -40,7 +40,7 @@ func genFault(c *Case, r *simrt.Rand, tier string) {
 func kindsFor(class string) []string {
 	switch class {
 	case "write":
-		return []string{"write-eio", "write-short", "write-enospc"}
+		return []string{"write-eio", "write-short", "write-enospc", "write-short-noerr"}
 	case "sync":
 		return []string{"sync-eio"}
 	case "stat":
@@ -248,7 +248,7 @@ func (e *Exec) processDurable() {
 			continue
 		}
 		e.out.Images++
-		v := e.imageVerdict(dir, dc.j, false)
+		v := e.imageVerdict(dir, dc.j, false, nil)
 		os.RemoveAll(dir)
 		if v != "" {
 			e.failD("success-not-durable", map[string]string{"symptom": vclass(v)},
